@@ -103,7 +103,8 @@ func (s *orRuleSetLoader) keyOrObjectEnd(lex lexeme.LexEvent) {
 	case lexeme.ObjectKeyEnd:
 		s.ruleNameLex = lex
 		s.stateFunc = s.valueBegin
-		if s.ruleNameLex.Value().String() == "enum" {
+		// The name may be quoted and may be followed by blanks, as everywhere.
+		if s.ruleNameLex.Value().TrimSpaces().Unquote().String() == "enum" {
 			s.stateFunc = s.enumValueBegin
 		}
 	case lexeme.ObjectEnd:
